@@ -77,7 +77,8 @@ Inductive result :=
 | RErrFormat          (* config.ErrInvalidConfigFormat *)
 | RErrBadCred         (* credentials.ErrBadCredentialFormat *)
 | RErrPutDisabled     (* credentials.ErrPlaintextPutDisabled *)
-| RErrIO.             (* saveFile failed (an I/O error) *)
+| RErrIO              (* saveFile failed (an I/O error) *)
+| RNative.            (* routed to a native credential helper (outside this model) *)
 
 Inductive op :=
 | Get (a : str)
@@ -312,6 +313,39 @@ Section Model.
     match h with
     | [] => st
     | o :: h' => fs_run disable_put (fst (fs_step disable_put st o)) h'
+    end.
+
+  (* DynamicStore (store.go, DetectDefaultNativeStore off): getStore routes an address to
+     a server-specific credential helper (credHelpers, the map read at Load), else to the
+     configured credsStore, else to the config file itself with DisablePut =
+     not AllowPlaintextPut.  Native helpers are external programs: outside the model *)
+  (* Config.GetCredentialHelper: "" when there is none *)
+  Definition helper_of (helpers : list (str * str)) (a : str) : str :=
+    match lookup a helpers with Some h => h | None => [] end.
+
+  Definition ds_route (helpers : list (str * str)) (st : state) (a : str) : option str :=
+    match helper_of helpers a with
+    | c :: h => Some (c :: h)
+    | [] => match m_cs (st_mem st) with
+            | [] => None
+            | cs => Some cs
+            end
+    end.
+
+  Definition ds_step (allow_plaintext : bool) (helpers : list (str * str)) (st : state) (o : op) : state * result :=
+    match o with
+    | SetCs _ => (st, ROk)                       (* not an operation of the DynamicStore *)
+    | Get a | Put a _ | Delete a =>
+        match ds_route helpers st a with
+        | Some _ => (st, RNative)
+        | None => fs_step (negb allow_plaintext) st o
+        end
+    end.
+
+  Fixpoint ds_run (allow_plaintext : bool) (helpers : list (str * str)) (st : state) (h : list op) : state :=
+    match h with
+    | [] => st
+    | o :: h' => ds_run allow_plaintext helpers (fst (ds_step allow_plaintext helpers st o)) h'
     end.
 
   (* does the operation write the file? *)
